@@ -619,6 +619,13 @@ func ruleP11(c *Ctx, id string) {
 					return true
 				}
 			}
+			// through a "where the next entry goes" pointer kept outside the callback (*tail = e)
+			if ld, isL := st.Addr.(*ssa.UnOp); isL && ld.Op == token.MUL {
+				switch ld.X.(type) {
+				case *ssa.FreeVar, *ssa.FieldAddr:
+					return true
+				}
+			}
 			return false
 		}
 		isNew := func(v ssa.Value) bool { _, ok := v.(*ssa.Alloc); return ok }
@@ -724,18 +731,10 @@ func ruleP11(c *Ctx, id string) {
 					}
 					return strings.HasSuffix(fieldPath(st.Addr), "Reply")
 				}
-				nCommit := 0
-				okAll := true
-				for _, cm := range P.CallsIn(hsc.Fn, func(f *ssa.Function) bool { return c.V.Terminators[f] == "commit" || (c.V.commitReply != nil && f == c.V.commitReply) }) {
-					if !reachableFrom(lc, cm) {
-						continue
-					}
-					nCommit++
-					if !MustBefore(hsc.Fn, isPut)(cm) {
-						okAll = false
-					}
-				}
-				R.Check(okAll && nCommit > 0, id, pr.handler[strings.LastIndex(pr.handler, ".")+1:]+"|listing stored in the reply on every path", P.Pos(lc.Pos()), "every path from the lister's call to the commit stores its result in Resok.Reply", fmt.Sprintf("must-precede at %d commit(s)", nCommit), "a path commits and answers NFS3_OK without the listing (for instance when the page has no entry): the end-of-directory flag is lost, the client asks again with the same cookie for ever")
+				// on every path on from the call (to the commit in this function, or to the return of the body that a
+				// committing helper runs) the result is stored
+				okAll := MustAfter(hsc.Fn, isPut, nil)(lc)
+				R.Check(okAll, id, pr.handler[strings.LastIndex(pr.handler, ".")+1:]+"|listing stored in the reply on every path", P.Pos(lc.Pos()), "every path on from the lister's call stores its result in Resok.Reply", "must-follow", "a path commits and answers NFS3_OK without the listing (for instance when the page has no entry): the end-of-directory flag is lost, the client asks again with the same cookie for ever")
 			}
 		}
 	}
